@@ -64,7 +64,8 @@ def run_unit(unit, rng, ctx):
     U = gen.random_walk(rng, T, N, max_step=float(rng.choice([0.05, 0.2, 0.4])), drift=drift, p_still=0.1)
     if np.abs(np.diff(U, axis=0)).max() >= 0.49:
         U = U[0:1] + (U - U[0:1]) * (0.45 / np.abs(np.diff(U, axis=0)).max())
-    dt = float(rng.choice([1e-15, 2e-15, 5e-16]))
+    # time steps: round femtosecond values, atomic-unit steps, arbitrary values over two decades
+    dt = float(rng.choice([1e-15, 2e-15, 5e-16, 20 * 2.4188843265857e-17, 1.2345678e-15, float(10.0 ** rng.uniform(-16.5, -14))]))
     names = [str(x) for x in rng.choice(['Li', 'Na', 'S'], size=N)]
     input_mode = str(rng.choice(['wrapped', 'unwrapped', 'random_images']))
     if input_mode == 'wrapped':
